@@ -1,11 +1,15 @@
 import QrlModel.Model.Dilithium
 import QrlModel.Props.C13
+import QrlModel.Proofs.DilSpec
 /-! # C05 — Dilithium `Verify` is strict
 
-The acceptance decision of the model verifier, stated outright for all byte strings; canonicity of the
-z section (from C13). The hint-section canonicity theorem is stated in `Props/C13` when proved; the
-strictness of each individual decoder check is exercised on the real code by a key-holding malicious
-signer (the Lean model with one signing-side check skipped) and byte-level hint edits. -/
+`verify_decision`: the acceptance decision of the model verifier, stated outright for all byte strings.
+`verifier_w_spec` + `decoded_ranges`: what the verifier recomputes is the specification's `w′ = A·z − c·t1·2^d` over
+`ZMod q` (NTT domain, canonical representatives), for *every* decoded response and public key — not only honest
+ones — so the decision is the specification's: accepted ⇔ decodes ∧ ‖z‖∞ < γ1 − β ∧ c̃ = H(μ ‖ pack(UseHint(h, w′))).
+`accepted_is_canonical`, `decode_injective`: accepted byte strings are in bijection with decoded values (from C13).
+The strictness of each individual check is additionally exercised on the real code by a key-holding malicious signer
+(the Lean model with one signing-side check skipped) and byte-level hint edits. -/
 namespace Qrl.C05
 open Qrl.Dil Gen.Dil
 
@@ -42,6 +46,27 @@ theorem verify_decision (sig msg pk : Bytes) :
     · simp [hn]
     · have hn' : vecChkNorm z (BitVec.ofNat 32 (GAMMA1 - BETA)) = false := by simpa using hn
       simp only [hn', Bool.false_eq_true, if_false, true_and, recomputedChallenge, beq_iff_eq]
+
+/-- **what the verifier recomputes is the specification's `w′ = A·z − c·t1·2^d`** (row by row, NTT domain over `ZMod q`,
+canonical representatives in [0, q)), for every response with coefficients in (−γ1, γ1], every `t1` with coefficients
+in [0, 2^10) and every challenge polynomial with coefficients in {−1, 0, 1} -/
+theorem verifier_w_spec (row : List Poly) (c : Poly) (z : List Poly) (t1i : Poly) (hrow : ∀ p ∈ row, NttBridge.Good 0 8380416 p)
+    (hrl : row.length ≤ 8) (hc : NttBridge.Good (-1) 1 c) (hz : ∀ p ∈ z, NttBridge.Good (-524287) 524288 p) (ht1 : NttBridge.Good 0 1023 t1i) :
+    NttBridge.NTT (NttBridge.V (polyCAddQ (invNTTToMont (polyReduce (polySub (pointwiseAcc row (z.map ntt))
+        (polyPointwise (ntt c) (ntt (polyShiftL t1i)))))))) =
+      List.zipWith (· - ·) (VecF.accF 1 (row.map NttBridge.V) ((z.map NttBridge.V).map NttBridge.NTT))
+        (List.zipWith (· * ·) (NttBridge.NTT (NttBridge.V c)) (NttBridge.NTT ((NttBridge.V t1i).map (· * (8192 : NttTable.Fq))))) ∧
+    NttBridge.Good 0 8380416 (polyCAddQ (invNTTToMont (polyReduce (polySub (pointwiseAcc row (z.map ntt))
+        (polyPointwise (ntt c) (ntt (polyShiftL t1i))))))) :=
+  NttBridge.verV_spec row c z t1i hrow hrl hc hz ht1
+
+/-- every decoded response and every decoded `t1` is in those ranges, whatever the bytes; the challenge polynomial is
+in {−1,0,1}^256 whatever the XOF -/
+theorem decoded_ranges (sig pk : Bytes) (hs : sig.length = CryptoBytes) (hp : pk.length = CryptoPublicKeyBytes) (ctil : Bytes) :
+    (∀ p ∈ (chunks 640 ((sig.drop 32).take (L * 640))).map polyZUnpack, NttBridge.Good (-524287) 524288 p) ∧
+    (∀ p ∈ (chunks 320 ((pk.drop 32).take (K * 320))).map polyT1Unpack, NttBridge.Good 0 1023 p) ∧
+    NttBridge.Good (-1) 1 (polyChallenge shake256 ctil) :=
+  ⟨(NttBridge.decoded_ranges sig pk hs hp).1, (NttBridge.decoded_ranges sig pk hs hp).2, NttBridge.polyChallenge_facts shake256 ctil⟩
 
 /-- an out-of-range response is never accepted -/
 theorem out_of_range_rejected (sig msg pk : Bytes) (parts : SigParts) (hu : unpackSig sig = some parts)
